@@ -472,6 +472,12 @@ func (p *Program) ruleLoops(c *Check, ea *effAnalysis) {
 				}
 				lc, asc, msg := countedLoop(loop, info)
 				if lc == nil {
+					if m := consumptionLoop(loop, info); m == "" {
+						c.OK("E4.T1", con, pos, "consumption loop: every path back to the header drops at least one element of the input tested by the condition")
+						return true
+					}
+				}
+				if lc == nil {
 					c.Bad("E4.T1", con, pos, "loop has no recognised progress measure: "+msg)
 					return true
 				}
@@ -625,9 +631,41 @@ func (p *Program) boundWrittenByCall(lc *loopCtx, loop *ast.ForStmt, info *types
 }
 
 // consumptionLoop: `for { if len(s) == 0 { return }; switch s[0] { … s = s[1:]; continue … return } }`
+func lenOperand(e ast.Expr) (string, bool) {
+	call, ok := ast.Unparen(e).(*ast.CallExpr)
+	if !ok || len(call.Args) != 1 || types.ExprString(call.Fun) != "len" {
+		return "", false
+	}
+	return types.ExprString(call.Args[0]), true
+}
+
 func consumptionLoop(loop *ast.ForStmt, info *types.Info) string {
 	if len(loop.Body.List) == 0 {
 		return "empty body"
+	}
+	if loop.Cond != nil {
+		// for len(s) > 0 { … s = s[k:] … }
+		cond, ok := ast.Unparen(loop.Cond).(*ast.BinaryExpr)
+		if !ok {
+			return "the condition is not len(s) > 0"
+		}
+		s, isLen := lenOperand(cond.X)
+		z, isZero := constInt(info, cond.Y)
+		op := cond.Op
+		if !isLen {
+			s, isLen = lenOperand(cond.Y)
+			z, isZero = constInt(info, cond.X)
+			if op == token.LSS {
+				op = token.GTR
+			}
+		}
+		if !isLen || !isZero || z != 0 || !(op == token.GTR || op == token.NEQ) {
+			return "the condition is not len(s) > 0"
+		}
+		if !consumes(loop.Body.List, s, info) {
+			return "a path returns to the loop header without consuming input"
+		}
+		return ""
 	}
 	first, ok := loop.Body.List[0].(*ast.IfStmt)
 	if !ok {
@@ -651,7 +689,15 @@ func consumptionLoop(loop *ast.ForStmt, info *types.Info) string {
 		return "the empty-input branch does not return"
 	}
 	s := types.ExprString(lenCall.Args[0])
-	// every path through the rest of the body must return/break or shorten s
+	if !consumes(loop.Body.List[1:], s, info) {
+		return "a path returns to the loop header without consuming input"
+	}
+	return ""
+}
+
+// consumes: every path through stmts that goes back to the loop header has
+// executed s = s[k:] with a constant k >= 1.
+func consumes(body []ast.Stmt, s string, info *types.Info) bool {
 	var check func(stmts []ast.Stmt, shortened bool) (falls bool, okAll bool)
 	check = func(stmts []ast.Stmt, shortened bool) (bool, bool) {
 		for _, st := range stmts {
@@ -718,11 +764,9 @@ func consumptionLoop(loop *ast.ForStmt, info *types.Info) string {
 		}
 		return true, shortened
 	}
-	_, ok2 := check(loop.Body.List[1:], false)
-	if !ok2 {
-		return "a path returns to the loop header without consuming input"
-	}
-	return ""
+	falls, ok2 := check(body, false)
+	_ = falls
+	return ok2
 }
 
 // ---- T3: nil guards ----
@@ -1259,6 +1303,15 @@ func refLike(t types.Type) bool {
 }
 
 func originOf(v ssa.Value) string {
+	return originOfD(v, map[ssa.Value]bool{}, 0)
+}
+
+func originOfD(v ssa.Value, seen map[ssa.Value]bool, depth int) string {
+	if seen[v] || depth > 40 {
+		return "param" // a cycle through a loop-carried variable: no progress can be claimed from it
+	}
+	seen[v] = true
+	originOf := func(w ssa.Value) string { return originOfD(w, seen, depth+1) }
 	switch x := v.(type) {
 	case *ssa.Parameter, *ssa.FreeVar:
 		return "param"
